@@ -40,7 +40,7 @@ contract ScrapeStatus.UpdateScrapeResult
 
 // (assumed) the request URL rebuilt from the shipped labels and the job's params: string/url.Values territory; only
 // "a fresh URL object" is known about it
-contract Target.URL
+contract trusted Target.URL
   requires t != nil && cfg != nil
   ensures result != nil && fresh(result)
   modifies net/url.URL.* at {}
